@@ -3,7 +3,7 @@
 From Utp Require Import Base.Prelude Wire.SeqNr Wire.Header Rtt.Rtte Mtu.SegSizes Rx.Rx Rx.Rx_Proofs
   Tx.Ring Tx.Segments Conn.Recovery Conn.Msg Conn.VSockRec Conn.VSock Conn.VSockRun Conn.VObs
   Conn.C10_Pred Conn.C02_Pred Conn.VSock_Lemmas Conn.VSock_LemmasStep Conn.VSock_LemmasReach
-  Conn.VSock_LemmasPark.
+  Conn.VSock_LemmasPark Tx.Segments_ProofsOut Conn.VSock_LemmasTimers.
 
 Section WithCC.
 Context {CC : Type} (cci : cc_iface CC).
@@ -38,6 +38,83 @@ Proof.
   - intros s o Hp. apply c02_parked_ok_step; exact Hp.
   - intros s o Hp. apply pk_vstep; exact Hp.
   - eapply pk_vsock_new; exact H0.
+Qed.
+
+(* ================================================================== c02_rto_armed *)
+(* the two disjuncts of [outstanding] *)
+Definition data_outstanding (f : vfp) : bool :=
+  existsb (fun g => (0 <? fg_sent_kind g) && negb (fg_delivered g)) (f_segs f).
+
+Definition fin_outstanding (f : vfp) : bool :=
+  match our_fin_if_unacked (f_state f) with
+  | Some fin => f_last_sent_seq_nr f =? fin
+  | None => false
+  end.
+
+Lemma outstanding_split : forall f, outstanding f = data_outstanding f || fin_outstanding f.
+Proof. reflexivity. Qed.
+
+(* the data half of c02_rto_armed: a sent, undelivered segment keeps the retransmission timer armed *)
+Definition c02_rto_armed_data (c : vconfig) (st : fstep) : bool :=
+  match fs_event st, fs_result st with
+  | FePoll _, FrPoll PollPending _ _ _ =>
+      let f := fs_post st in
+      if negb (f_transport_pending f) && data_outstanding f
+      then match f_t_retransmit f with Some _ => true | None => false end
+      else true
+  | _, _ => true
+  end.
+
+Lemma data_outstanding_fp : forall (s : vsock),
+  data_outstanding (fp_of_vsock cci s) = segs_out (ss_segs (v_segs s)).
+Proof.
+  intros s. unfold data_outstanding. cbn [fp_of_vsock f_segs].
+  apply segs_out_existsb. intros g. unfold fseg_of, seg_out, seg_sent_b. cbn [fg_sent_kind fg_delivered].
+  destruct (sg_sent g); reflexivity.
+Qed.
+
+Lemma ti_timer_fp : forall (s : vsock),
+  ti s -> data_outstanding (fp_of_vsock cci s) = true ->
+  match f_t_retransmit (fp_of_vsock cci s) with Some _ => true | None => false end = true.
+Proof.
+  intros s (_ & _ & Hrd) H. rewrite data_outstanding_fp in H. specialize (Hrd H).
+  cbn [fp_of_vsock f_t_retransmit]. destruct (v_t_retransmit s); [reflexivity|congruence].
+Qed.
+
+(* after EVERY poll (whatever its result, transport pending or not) *)
+Theorem c02_rto_armed_data_step : forall cfg (s : vsock) o,
+  ti s -> ti (vstep_state cci s o) /\ c02_rto_armed_data cfg (fstep_of cci s o) = true.
+Proof.
+  intros cfg s o Hti. pose proof (ti_vstep cci s o Hti) as Hti'. split; [exact Hti'|].
+  unfold c02_rto_armed_data. rewrite fstep_of_event, fstep_of_result, fstep_of_post.
+  destruct (fevent_of o); try reflexivity.
+  destruct (fresult_of _); try reflexivity. destruct r; try reflexivity.
+  destruct (negb _ && data_outstanding _) eqn:G; [|reflexivity].
+  apply andb_true_iff in G. destruct G as [_ G]. apply ti_timer_fp; assumption.
+Qed.
+
+(* the predicate of Conn/C02_Pred.v itself, whenever our FIN is not the outstanding thing *)
+Theorem c02_rto_armed_step_nofin : forall cfg (s : vsock) o,
+  ti s -> fin_outstanding (fs_post (fstep_of cci s o)) = false ->
+  c02_rto_armed cfg (fstep_of cci s o) = true.
+Proof.
+  intros cfg s o Hti Hf. pose proof (ti_vstep cci s o Hti) as Hti'.
+  unfold c02_rto_armed. rewrite outstanding_split, Hf, orb_false_r.
+  rewrite fstep_of_event, fstep_of_result, fstep_of_post.
+  destruct (fevent_of o); try reflexivity.
+  destruct (fresult_of _); try reflexivity. destruct r; try reflexivity.
+  destruct (negb _ && data_outstanding _) eqn:G; [|reflexivity].
+  apply andb_true_iff in G. destruct G as [_ G]. apply ti_timer_fp; assumption.
+Qed.
+
+Theorem c02_rto_armed_data_trace : forall cfg mk c (s0 : vsock) ops,
+  vsock_new cci mk c = Some s0 -> forallb (c02_rto_armed_data cfg) (ftrace cci s0 ops) = true.
+Proof.
+  intros cfg mk c s0 ops H0.
+  apply (ftrace_forallb cci ti).
+  - intros s o Hp. apply c02_rto_armed_data_step; exact Hp.
+  - intros s o Hp. apply ti_vstep; exact Hp.
+  - eapply ti_vsock_new; exact H0.
 Qed.
 
 End WithCC.
